@@ -309,3 +309,22 @@ func SameCell(tc *boc.Cell, rc *ref.RCell) error {
 		return nil
 	})
 }
+
+// RefuseFirst makes the library refuse something just before the caller's real work: a chain of cells one
+// or a few edges deeper than the limit of 1024 is hashed and serialised, and a bag with a broken checksum
+// is parsed. What the library answers is not judged here (C02 and C07 do that); the point is that a
+// refusal must leave nothing behind that changes the next, unrelated result.
+func RefuseFirst(extra int) {
+	t := boc.NewCell()
+	_ = t.WriteBit(true)
+	for i := 0; i < 1025+extra; i++ {
+		p := boc.NewCell()
+		_ = p.WriteUint(uint64(i), 16)
+		_ = p.AddRef(t)
+		t = p
+	}
+	_, _ = t.Hash()
+	_, _ = t.ToBoc()
+	_, _ = boc.NewHasher().Hash(t)
+	_, _ = boc.DeserializeBoc([]byte{0xb5, 0xee, 0x9c, 0x72, 0x41, 0x01, 0x01, 0x01, 0x00, 0x03, 0x00, 0x00, 0x02, 0xab, 0, 0, 0, 0})
+}
